@@ -221,9 +221,58 @@ def case_selection(T, fname, pattern_index):
 
 
 # ---- (iii) allocation audit of the structural rules ------------------------------------------------------
+def _audit_concrete(T, entry, structure):
+    """float replay of the allocation audit: the real rule runs on real arrays with factor sizes 20 and 30 (n = 600, or 70 for block-diagonal);
+    numpy's allocations are measured with tracemalloc and the peak must stay below a quarter of one dense n x n matrix"""
+    import importlib
+    import tracemalloc
+    n1, n2 = 20, 30
+    rs = np.random.RandomState(0)
+
+    def psd(n):
+        B = rs.randn(n, n) / np.sqrt(n)
+        return cola.PSD(ops.Dense(B @ B.T + np.eye(n)))
+    if structure == "kron":
+        A = ops.Kronecker(psd(n1), psd(n2))
+    elif structure == "blockdiag":
+        A = ops.BlockDiag(psd(n1), psd(n2), multiplicities=[15, 10])
+    elif structure == "kronsum":
+        A = ops.KronSum(psd(n1), psd(n2))
+    else:
+        A = ops.Kronecker(psd(n1), psd(n2)) @ ops.Diagonal(1.0 + rs.rand(n1 * n2))
+    n = A.shape[0]
+    x = rs.randn(n)
+    U = importlib.import_module("cola.linalg.unary.unary")
+    D = importlib.import_module("cola.linalg.decompositions.decompositions")
+    calls = _audit_calls(A, x, U, D)
+    calls[entry]()  # warm-up: imports, dispatch caches
+    tracemalloc.start()
+    try:
+        calls[entry]()
+        peak = tracemalloc.get_traced_memory()[1]
+    finally:
+        tracemalloc.stop()
+    dense_bytes = 8 * n * n
+    T.check(f"{entry}[{structure}]: no array with n^2 or more entries is created", peak < dense_bytes / 4,
+            f"peak additional memory {peak} bytes, one dense {n} x {n} matrix is {dense_bytes} bytes")
+    T.check(f"{entry}[{structure}]: every array <= 2 n + sum n_i^2", peak < dense_bytes / 4, f"peak {peak} bytes")
+
+
+def _audit_calls(A, x, U, D):
+    return {
+        "inv@x": lambda: cola.linalg.inv(A) @ x, "inv(Auto)@x": lambda: cola.linalg.inv(A, cola.linalg.Auto()) @ x, "solve": lambda: cola.linalg.solve(A, x),
+        "logdet": lambda: cola.linalg.logdet(A), "logdet(Auto)": lambda: cola.linalg.logdet(A, cola.linalg.Auto(), cola.linalg.Auto()),
+        "diag": lambda: cola.linalg.diag(A), "diag(Auto)": lambda: cola.linalg.diag(A, 0, cola.linalg.Auto()), "trace": lambda: cola.linalg.trace(A),
+        "sqrt@x": lambda: U.sqrt(A) @ x, "sqrt(Auto)@x": lambda: U.sqrt(A, cola.linalg.Auto()) @ x, "exp(Auto)@x": lambda: U.exp(A, cola.linalg.Auto()) @ x, "exp@x": lambda: U.exp(A) @ x,
+        "pow(-2)@x": lambda: U.pow(A, -2, cola.linalg.Auto()) @ x, "cholesky@x": lambda: D.cholesky(A) @ x, "plu@x": lambda: D.plu(A)[2] @ x,
+    }
+
+
 def case_audit(T, entry, structure):
     from symx import array as sa
     import importlib
+    if not T.sym:
+        return _audit_concrete(T, entry, structure)
     dt = 'float64'
     n1, n2 = 2, 3
 
@@ -272,13 +321,7 @@ def case_audit(T, entry, structure):
 
     U = importlib.import_module("cola.linalg.unary.unary")
     D = importlib.import_module("cola.linalg.decompositions.decompositions")
-    calls = {
-        "inv@x": lambda: cola.linalg.inv(A) @ x, "inv(Auto)@x": lambda: cola.linalg.inv(A, cola.linalg.Auto()) @ x, "solve": lambda: cola.linalg.solve(A, x),
-        "logdet": lambda: cola.linalg.logdet(A), "logdet(Auto)": lambda: cola.linalg.logdet(A, cola.linalg.Auto(), cola.linalg.Auto()),
-        "diag": lambda: cola.linalg.diag(A), "diag(Auto)": lambda: cola.linalg.diag(A, 0, cola.linalg.Auto()), "trace": lambda: cola.linalg.trace(A),
-        "sqrt@x": lambda: U.sqrt(A) @ x, "sqrt(Auto)@x": lambda: U.sqrt(A, cola.linalg.Auto()) @ x, "exp(Auto)@x": lambda: U.exp(A, cola.linalg.Auto()) @ x, "exp@x": lambda: U.exp(A) @ x,
-        "pow(-2)@x": lambda: U.pow(A, -2, cola.linalg.Auto()) @ x, "cholesky@x": lambda: D.cholesky(A) @ x, "plu@x": lambda: D.plu(A)[2] @ x,
-    }
+    calls = _audit_calls(A, x, U, D)
     sa.SymArray.__new__ = staticmethod(tracking_new) if False else tracking_new
     try:
         if T.sym:
@@ -287,12 +330,55 @@ def case_audit(T, entry, structure):
     finally:
         sa.SymArray.__new__ = orig_new
     big = [s_ for s_ in sizes if s_ >= n * n]
-    T.check(f"{entry}[{structure}]: no array with n^2 = {n * n} or more entries is created", not big, f"largest arrays: {sorted(sizes)[-3:]} (operand {n}, factors {n1 * n1}, {n2 * n2})")
-    T.check(f"{entry}[{structure}]: every array <= 2 n + sum n_i^2 = {budget}", max(sizes or [0]) <= budget, f"largest array {max(sizes or [0])}")
+    T.check(f"{entry}[{structure}]: no array with n^2 or more entries is created", not big, f"largest arrays: {sorted(sizes)[-3:]} (operand {n}, factors {n1 * n1}, {n2 * n2})")
+    T.check(f"{entry}[{structure}]: every array <= 2 n + sum n_i^2", max(sizes or [0]) <= budget, f"largest array {max(sizes or [0])}")
+
+
+def case_generic_paths(T, what):
+    """the generic fall-backs that structural rules and estimators lean on (densifying a tall / wide sub-operator, exact probing in blocks of
+    100 columns) must not build an n x n array either.  Real float code, real sizes, numpy allocations measured with tracemalloc."""
+    import tracemalloc
+    from symx import shim
+    was = shim.MODE.get("symbolic")
+    shim.symbolic(False)
+    try:
+        if what == "to_dense-tall":
+            m, k = 4000, 10
+        else:
+            m = k = 1600
+        B = np.ones((min(m, 50), k))
+
+        def mm(X):
+            return np.ones((m, 1)) * (B[:1] @ X)  # rank-one action: O(m c) memory
+        A = ops.LinearOperator(np.dtype('float64'), (m, k), matmat=mm)
+        if what.startswith("to_dense"):
+            run = lambda: A.to_dense()  # noqa
+        elif what == "exact-diag":
+            run = lambda: cola.linalg.diag(A, 0, cola.linalg.Exact() if hasattr(cola.linalg, "Exact") else _exact())  # noqa
+        else:
+            run = lambda: cola.linalg.diag(ops.Sum(A, ops.ScalarMul(0.5, (m, m), dtype=np.dtype('float64'))), 0, _exact())  # noqa
+        tracemalloc.start()
+        try:
+            out = run()
+            peak = tracemalloc.get_traced_memory()[1]
+        finally:
+            tracemalloc.stop()
+    finally:
+        shim.symbolic(was)
+    big = 8 * max(m, k) ** 2
+    T.check(f"{what}: peak additional memory stays below a quarter of a dense {max(m, k)} x {max(m, k)} array", peak < big / 4, f"peak {peak} bytes, dense square {big} bytes")
+
+
+def _exact():
+    import importlib
+    return importlib.import_module("cola.linalg.trace.diagonal_estimation").Exact()
 
 
 def cases(tier, seed):
     out = []
+    # (a wide operator is densified through the generic left product, which needs linear_transpose: not available on the NumPy backend)
+    for what in ("to_dense-tall", "exact-diag", "sum-with-generic-diag"):
+        out.append((f"generic:{what}", case_generic_paths, dict(what=what), dict(validate=True)))
     for kind in ("kron2", "kron3", "kron4", "kron-rect", "kronsum2", "kronsum3", "blockdiag", "blockdiag-rect", "kron+diag", "kron@kron", "scalar*kron", "kron+identity", "bd@diag",
                  "diag", "identity", "tridiag", "perm"):
         out.append((f"matmat:{kind}", case_matmat, dict(kind=kind)))
@@ -300,12 +386,13 @@ def cases(tier, seed):
     for fname in STRUCT:
         for i, p in enumerate(c04._patterns()[fname]):
             out.append((f"select:{fname}#{i}", case_selection, dict(fname=fname, pattern_index=i)))
-    audits = {"kron": ["inv@x", "inv(Auto)@x", "solve", "logdet", "logdet(Auto)", "diag", "diag(Auto)", "trace", "sqrt(Auto)@x", "pow(-2)@x", "cholesky@x", "plu@x"],
+    audits = {"kron": ["inv@x", "inv(Auto)@x", "solve", "logdet", "logdet(Auto)", "diag", "diag(Auto)", "trace", "sqrt(Auto)@x", "sqrt@x", "pow(-2)@x", "cholesky@x", "plu@x"],
               "blockdiag": ["inv@x", "inv(Auto)@x", "logdet", "diag", "sqrt(Auto)@x", "exp(Auto)@x", "cholesky@x", "plu@x"],
-              "kronsum": ["exp(Auto)@x", "diag"], "kron*scalar": ["inv@x", "logdet"]}
+              "kronsum": ["exp(Auto)@x", "exp@x", "diag"], "kron*scalar": ["inv@x", "logdet"]}
     for st, es in audits.items():
         for e in es:
-            out.append((f"audit:{st}:{e}", case_audit, dict(entry=e, structure=st)))
+            # validate: every audit is also measured on the real float code (tracemalloc, factor sizes 20 and 30)
+            out.append((f"audit:{st}:{e}", case_audit, dict(entry=e, structure=st), dict(validate=True)))
     return out
 
 
